@@ -11,7 +11,8 @@ tile-list producers, the list is row-major and the mosaic decomposes the index t
 (C03.f); one way to intersect rectangles in the five clipping sites (C03.g).
 Added in round 4: the stretch / shrink factors handed to the grid are looked up (grid option, then
 the globals of the configuration being loaded) and never written into the shared mapping of a built-
-in grid (C03.h)."""
+in grid (C03.h).
+Added in round 5: the 'no tiles' bound is that of the coarsest level (C03.k)."""
 import ast
 
 from ..engine import rule, run_property
